@@ -221,6 +221,17 @@ def writers(p):
                                   "error": "%s: %s has %d lines for %d trees (text lengths %s / %s)" % (
                                       what, name, got, n, [len(str(t)) for t in all_tree], [len(str(t)) for t in extra_tree])})
                     return
+            # content: line k of a tree file carries exactly the labels of tree k, in order (numpy summarises long arrays with '...' when its print
+            # options are changed: the line is still one line, but it is not the tree)
+            import re as _re
+            for name, trees in (("orig_trees_3.txt", all_tree), ("extra_trees_3.txt", extra_tree)):
+                lines = open(os.path.join(tmp, name)).read().splitlines()
+                for k, (ln, t) in enumerate(zip(lines, trees)):
+                    toks = _re.findall(r"'([^']*)'", ln)
+                    if toks != [str(x) for x in t]:
+                        fails.append({"what": what, "file": name, "all_tree": [list(map(str, t_)) for t_ in all_tree], "extra_tree": [list(map(str, t_)) for t_ in extra_tree],
+                                      "error": "%s: line %d of %s is %r: not the %d labels %s of tree %d" % (what, k, name, ln[:200], len(t), [str(x) for x in t][:40], k)})
+                        return
         if p.get("explicit"):
             for c in p["explicit"]:
                 run_one([np.array(t, dtype="U100") for t in c["all_tree"]], [[np.str_(x) for x in t] for t in c["extra_tree"]], "replay")
